@@ -33,6 +33,10 @@ from .visualizations import visualizer
 #plt.interactive(True)
 
 
+# guards the test-and-set of the session lock flag (see bptk.try_lock)
+_session_lock_guard = threading.Lock()
+
+
 class conf:
     def __init__(self):
         """Initialze config zu defaults."""
@@ -259,6 +263,14 @@ class bptk():
     def lock(self):
         if self.session_state is not None:
             self.session_state["lock"] = True
+
+    def try_lock(self):
+        """Take the session lock if it is free. Test and set happen atomically; returns False if the session is already locked."""
+        with _session_lock_guard:
+            if self.is_locked():
+                return False
+            self.lock()
+            return True
     def unlock(self):
         if self.session_state is not None:
             self.session_state["lock"] = False
